@@ -1,9 +1,243 @@
 import NibabelModel.Model.C17
+import NibabelModel.Generated.C17Codes
 import Driver.Util
-/-! Line-protocol driver for C17: `C17 <op> <args...>` -> one observable line. -/
+/-! Line-protocol driver for C17: `C17 <op> <args...>` -> one observable line.
+
+    ops
+      hist  <op>*            container history; op ∈ a<id>:<intent> | p<int> | r<intent> | g<intent> | A_ | A<intent> | T<i,i,..>
+      orig  <ids> <intents> <it>   ORIGINAL remove-by-intent loop on the list of (id,intent)
+      space                  all code points < 0x3100 for which the model's `isPySpace` holds
+      block <enc> <endian> <datatype> <dims> <ord> <text|_> <table>*     read_data_block
+      wblock <itemsize> <big 0|1> <col 0|1> <dims> <bits>   bytes `_data_tag_element` hands to zlib/base64 (hex)
+      parse <event|table>*   the parser event machine
+    text  = code points in hex joined by '.', '-' = empty
+    event = S~tag~k=text~k=text… | C~text | E~tag
+    table = Z~hexbytes~hexbytes (zlib.decompress answer) | F~text~bits (ASCII float token → float32 bit pattern)
+            | G~text~bits (token → float64 bit pattern; MatrixData) -/
 namespace Nb.Drv.C17
+open Nb Nb.C17
+
+def K : Codes := Nb.C17.Gen.codes
+
+def hexVal (c : Char) : Option Nat :=
+  if '0' ≤ c ∧ c ≤ '9' then some (c.toNat - 48)
+  else if 'a' ≤ c ∧ c ≤ 'f' then some (c.toNat - 87)
+  else none
+
+def parseHex? (s : String) : Option Nat :=
+  if s.isEmpty then none else s.toList.foldlM (fun acc c => (hexVal c).map (acc * 16 + ·)) 0
+
+def parseText? (s : String) : Option Text :=
+  if s = "-" then some []
+  else (s.splitOn ".").mapM (fun h => (parseHex? h).map Char.ofNat)
+
+def hexDigit (n : Nat) : Char := if n < 10 then Char.ofNat (48 + n) else Char.ofNat (87 + n)
+
+def toHex (n : Nat) : String :=
+  let rec go (fuel n : Nat) (acc : List Char) : List Char :=
+    match fuel with
+    | 0 => acc
+    | f + 1 => if n < 16 then hexDigit n :: acc else go f (n / 16) (hexDigit (n % 16) :: acc)
+  String.ofList (go 16 n [])
+
+def showText (t : Text) : String :=
+  if t.isEmpty then "-" else ".".intercalate (t.map (fun c => toHex c.toNat))
+
+def parseBytes? (s : String) : Option (List Nat) :=
+  if s = "-" then some []
+  else
+    let rec go : List Char → Option (List Nat)
+      | [] => some []
+      | a :: b :: rest => do
+        let x ← hexVal a
+        let y ← hexVal b
+        let r ← go rest
+        pure ((x * 16 + y) :: r)
+      | _ => none
+    go s.toList
+
+/-! container -/
+
+def showIds (l : List DA) : String := showList (l.map (·.id))
+
+def showAgg : Agg → String
+  | .stack l => "S" ++ showList l
+  | .single i => "O" ++ toString i
+  | .tuple l => "T" ++ showList l
+
+/-- one history op: new list and the observable result -/
+def histOp (l : List DA) (tok : String) : Option (List DA × String) :=
+  let body := (tok.drop 1).toString
+  if tok.startsWith "a" then
+    match body.splitOn ":" with
+    | [i, it] => match i.toNat?, it.toNat? with
+      | some i, some it => let l' := addArray l ⟨i, it⟩; some (l', "-")
+      | _, _ => none
+    | _ => none
+  else if tok.startsWith "p" then
+    match body.toInt? with
+    | some i => match removeAt l i with
+      | .ok l' => some (l', "-")
+      | .error _ => some (l, "ERR:IndexError")
+    | none => none
+  else if tok.startsWith "r" then
+    body.toNat?.map (fun it => (removeByIntent l it, "-"))
+  else if tok.startsWith "g" then
+    body.toNat?.map (fun it => (l, "g" ++ showIds (getArraysFromIntent l it)))
+  else if tok = "A_" then some (l, showAgg (aggOne K.timeSeries l none))
+  else if tok.startsWith "A" then
+    body.toNat?.map (fun it => (l, showAgg (aggOne K.timeSeries l (some it))))
+  else if tok.startsWith "T" then
+    (parseNatList? body).map (fun cs => (l, "+".intercalate ((aggTuple K.timeSeries l cs).map showAgg)))
+  else none
+
+def runHist : List DA → List String → Option (List String)
+  | _, [] => some []
+  | l, t :: ts => do
+    let (l', r) ← histOp l t
+    let rest ← runHist l' ts
+    pure ((showIds l' ++ "/" ++ r) :: rest)
+
+/-! tables for the external functions -/
+
+structure Tables where
+  z : List (List Nat × List Nat) := []
+  f : List (Text × Nat) := []
+  g : List (Text × Nat) := []
+
+def twos (w : Nat) (v : Int) : Option Nat :=
+  let m : Int := (256 : Int) ^ w
+  if v < 0 then (if -v ≤ m / 2 then some (v + m).toNat else none)
+  else if v < m / 2 then some v.toNat else none
+
+def mkExt (T : Tables) : Ext where
+  b64dec := b64decode
+  inflate := fun b => (T.z.find? (·.1 == b)).map (·.2)
+  parseNum := fun kind w t =>
+    if kind == 'u' then
+      match (String.ofList t).toNat? with
+      | some v => if v < 256 ^ w then some v else none
+      | none => none
+    else if kind == 'i' then (String.ofList t).toInt?.bind (twos w)
+    else if w == 8 then (T.g.find? (·.1 == t)).map (·.2)
+    else (T.f.find? (·.1 == t)).map (·.2)
+
+def parseTable? (T : Tables) (tok : String) : Option Tables :=
+  match tok.splitOn "~" with
+  | ["Z", a, b] => do
+    let a ← parseBytes? a
+    let b ← parseBytes? b
+    pure { T with z := T.z ++ [(a, b)] }
+  | ["F", t, bits] => do
+    let t ← parseText? t
+    let b ← bits.toNat?
+    pure { T with f := T.f ++ [(t, b)] }
+  | ["G", t, bits] => do
+    let t ← parseText? t
+    let b ← bits.toNat?
+    pure { T with g := T.g ++ [(t, b)] }
+  | _ => none
+
+def parseTables? : Tables → List String → Option Tables
+  | T, [] => some T
+  | T, t :: ts => (parseTable? T t).bind (parseTables? · ts)
+
+def showArr (a : Arr) : String := showList a.shape ++ ":" ++ showList a.elems
+
+/-! events -/
+
+def parseAttr? (s : String) : Option (String × Text) :=
+  match s.splitOn "=" with
+  | [k, v] => (parseText? v).map (fun t => (k, t))
+  | _ => none
+
+def parseEvent? (tok : String) : Option Event :=
+  match tok.splitOn "~" with
+  | "S" :: tag :: attrs => (attrs.mapM parseAttr?).map (Event.start tag)
+  | ["C", t] => (parseText? t).map Event.chars
+  | ["E", tag] => some (Event.stop tag)
+  | _ => none
+
+def splitEvents : List String → Tables → List Event → Option (Tables × List Event)
+  | [], T, acc => some (T, acc.reverse)
+  | t :: ts, T, acc =>
+    if t.startsWith "Z~" ∨ t.startsWith "F~" ∨ t.startsWith "G~" then (parseTable? T t).bind (fun T' => splitEvents ts T' acc)
+    else (parseEvent? t).bind (fun e => splitEvents ts T (e :: acc))
+
+def showOT (o : Option Text) : String := match o with
+  | none => "_"
+  | some t => showText t
+
+def showMD (m : MD) : String :=
+  "{" ++ ",".intercalate (m.map (fun p => showText p.1 ++ ":" ++ showText p.2)) ++ "}"
+
+def showLabel : Option Label → String
+  | none => "N"
+  | some l => ":".intercalate [toString l.key, showOT l.label, showOT l.red, showOT l.green, showOT l.blue, showOT l.alpha]
+
+/-- float64 bit patterns of np.identity(4) -/
+def identityRows : List (List Nat) :=
+  (List.range 4).map (fun i => (List.range 4).map (fun j => if i = j then 4607182418800017408 else 0))
+
+/-- shape after np.loadtxt's squeeze, then the values -/
+def showXform (x : Option (List (List Nat))) : String :=
+  let rows := x.getD identityRows
+  let r := rows.length
+  let c := (rows.head?.map List.length).getD 0
+  let shape := if r == 0 then [0] else [r, c].filter (· != 1)
+  showList shape ++ ":" ++ showList rows.flatten
+
+def showDA (d : DArr) : String :=
+  "DA(" ++ ",".intercalate [toString d.intent, toString d.datatype, toString d.indOrd, toString d.encoding,
+    toString d.endian, showList d.dims, showText d.extFname, toString d.extOffset,
+    (match d.dmeta with | none => "_" | some m => showMD m),
+    toString d.coordsys.dataspace, toString d.coordsys.xformspace] ++ " " ++ showXform d.coordsys.xform ++ " " ++
+    (match d.data with | none => "_" | some a => showArr a) ++ ")"
+
+def showImg (i : Img) : String :=
+  "ok " ++ showText i.version ++ " M" ++ showMD i.gmeta ++ " L[" ++ ",".intercalate (i.labels.map showLabel) ++ "]" ++
+    String.join (i.darrays.map (fun d => " " ++ showDA d))
 
 def handle : List String → String
+  | "hist" :: ops =>
+    match runHist [] ops with
+    | some outs => if outs.isEmpty then "-" else " ".intercalate outs
+    | none => "bad-op"
+  | ["orig", ids, intents, it] =>
+    match parseNatList? ids, parseNatList? intents, it.toNat? with
+    | some ids, some ints, some it =>
+      if ids.length ≠ ints.length then "bad-op"
+      else
+        let l := (ids.zip ints).map (fun p => (⟨p.1, p.2⟩ : DA))
+        showIds (removeByIntentOrig l it) ++ " " ++
+          (if ids.Nodup then showIds (skipAfterRemoval (fun d => d.intent == it) l) else "dup") ++ " " ++
+          showIds (removeByIntent l it)
+    | _, _, _ => "bad-op"
+  | ["space"] => showList ((List.range 0x3100).filter (fun n => isPySpace (Char.ofNat n)))
+  | "block" :: enc :: endian :: dt :: dims :: ord :: text :: tables =>
+    match enc.toNat?, endian.toNat?, dt.toNat?, parseNatList? dims, ord.toNat?,
+          (if text = "_" then some none else (parseText? text).map some), parseTables? {} tables with
+    | some enc, some endian, some dt, some dims, some ord, some data, some T =>
+      match readDataBlock K (mkExt T) ⟨enc, endian, dt, dims, ord⟩ data with
+      | .ok a => "ok " ++ showArr a
+      | .error _ => "ERR"
+    | _, _, _, _, _, _, _ => "bad-op"
+  | ["wblock", w, big, col, dims, bits] =>
+    match w.toNat?, big.toNat?, col.toNat?, parseNatList? dims, parseNatList? bits with
+    | some w, some big, some col, some dims, some bits =>
+      if bits.length ≠ prod dims then "bad-op"
+      else
+        let bs := toBytes (big == 1) w (toOrder (col == 1) dims bits)
+        if bs.isEmpty then "-" else String.join (bs.map (fun b => String.ofList [hexDigit (b / 16), hexDigit (b % 16)]))
+    | _, _, _, _, _ => "bad-op"
+  | "parse" :: toks =>
+    match splitEvents toks {} [] with
+    | some (T, es) =>
+      match run K (mkExt T) es with
+      | .ok (some img) => showImg img
+      | .ok none => "none"
+      | .error _ => "ERR"
+    | none => "bad-op"
   | _ => "bad-op"
 
 end Nb.Drv.C17
